@@ -260,6 +260,28 @@ pub fn run(ctx: &mut Ctx) {
     let mut p = P07::new(2, 2);
     p.hostile_input = true;
     hist::dfs(ctx, &mut p, if quick { 6 } else { 8 }, 3, "C07", 12);
+    // histories around the capacity boundary (up to 13 clients): closes with requests in flight,
+    // newcomers while the server is full, late answers
+    let mut rng = ctx.rng.fork(0xC0710);
+    let mut p = P07::new(13, 8);
+    for i in 0..(n / 4 + 1) {
+        ctx.begin();
+        ctx.rep.evaluations += 1;
+        ctx.rep.count("histories_capacity");
+        let mut acts = crate::props::c10::boundary_history(&mut rng);
+        // late answers after the churn
+        acts.push(Act::RespondAllRev(Size::Small));
+        acts.push(Act::Poll);
+        acts.push(Act::Poll);
+        let out = hist::run_history(ctx, &mut p, &acts, true, false);
+        if let Some((k, d)) = out.violation {
+            ctx.rep.violation(&format!("C07:{}", k), d, hist::history_json(&acts, vec![]));
+            if ctx.rep.violations_total > 30 {
+                break;
+            }
+        }
+        let _ = i;
+    }
     if ctx.rep.samples.is_empty() {
         ctx.rep.sample(J::s("no sample"));
     }
